@@ -192,7 +192,17 @@ def textContents : List Piece → List PyStr
   | .otag m _ _ :: r => if m == py!"text" then textUpToTag r :: textContents r else textContents r
   | _ :: r => textContents r
 
-/-- what a name is displayed as: characters XML cannot represent are shown as U+FFFD -/
+/-- what a name is displayed as by the repaired code: characters XML cannot represent are shown as U+FFFD -/
 def displayed (s : PyStr) : PyStr := s.map fun c => if isXmlChar c then c else 0xFFFD
+
+/-- a character every sanitiser must show as itself: an XML character that is neither markup (`& < > " '`),
+    nor white space, nor the replacement character -/
+def isPlain (c : Nat) : Bool :=
+  isXmlChar c && c != 38 && c != 60 && c != 62 && c != 34 && c != 39 && !isWs c && c != 0xFFFD
+
+/-- the plain characters of a string, in order.  "The text element shows the name" is stated as: the displayed text and
+    the name have the same plain characters (how markup and unrepresentable characters are shown — escaped, replaced by a
+    blank or by U+FFFD, dropped — is left to the sanitiser; the exact choice of the code is pinned by the model). -/
+def plainOf (s : PyStr) : PyStr := s.filter isPlain
 
 end SkNet.Svg
